@@ -294,6 +294,14 @@ def asmImm (ctx : ImmCtx) (text : List Char) : Option Nat :=
 /-- the constant supplied, as an unsigned number of the operation's width -/
 def immWanted (ctx : ImmCtx) (v : Int) : Nat := (v % 2 ^ ctx.width).toNat
 
+/-- The constant is a number of the operation's width at all: an unsigned or a
+two's complement signed `width`-bit number (otherwise keeping the low bits changes the value:
+e.g. a 32-bit constant as the operand of an 8-bit operation). -/
+def ImmRepresentable (ctx : ImmCtx) (v : Int) : Prop :=
+  -(2 ^ (ctx.width - 1) : Int) ≤ v ∧ v < 2 ^ ctx.width
+
+instance (ctx : ImmCtx) (v : Int) : Decidable (ImmRepresentable ctx v) := by unfold ImmRepresentable; exact inferInstance
+
 /-- The decidable guard: where the hardware sign-extends a 32-bit field, the
 constant must be representable as a signed 32-bit number (this excludes exactly
 the unsigned 32-bit constants ≥ 2³¹ — and wider constants, which no imm8/imm32
